@@ -148,10 +148,36 @@ fn key_impl(imp: &syn::ItemImpl) -> KeyFacts {
         if let ImplItem::Fn(f) = it {
             let fname = f.sig.ident.to_string();
             if fname == "into_usize" {
-                load = Some(match tail_expr(&f.block) {
-                    Some(e) => kexpr(e, "self"),
-                    None => format!("(.unknown {})", lean::s(&toks(&f.block))),
+                // leading `let x = <expr>;` bindings are substituted
+                ALIASES.with(|m| m.borrow_mut().clear());
+                let mut ok = true;
+                let n = f.block.stmts.len();
+                for (idx, st) in f.block.stmts.iter().enumerate() {
+                    if idx + 1 == n {
+                        break;
+                    }
+                    match st {
+                        Stmt::Local(l) => {
+                            let pat = match &l.pat {
+                                syn::Pat::Type(pt) => &*pt.pat,
+                                p => p,
+                            };
+                            match (pat, &l.init) {
+                                (syn::Pat::Ident(pi), Some(init)) => {
+                                    let v = kexpr(&init.expr, "self");
+                                    ALIASES.with(|m| m.borrow_mut().insert(pi.ident.to_string(), v));
+                                }
+                                _ => ok = false,
+                            }
+                        }
+                        _ => ok = false,
+                    }
+                }
+                load = Some(match (ok, f.block.stmts.last()) {
+                    (true, Some(Stmt::Expr(e, None))) => kexpr(peel(e), "self"),
+                    _ => format!("(.unknown {})", lean::s(&toks(&f.block))),
                 });
+                ALIASES.with(|m| m.borrow_mut().clear());
             } else if fname == "try_from_usize" {
                 let param = f
                     .sig
@@ -298,11 +324,27 @@ pub fn emit(src: &Path, out: &mut String) {
                     for it in &imp.items {
                         if let ImplItem::Fn(f) = it {
                             if f.sig.ident == "default" {
-                                let t = tail_expr(&f.block).map(|e| toks(e)).unwrap_or_default();
-                                let pre = "Self :: try_from_usize (";
-                                let post = ") . unwrap ()";
-                                if t.starts_with(pre) && t.ends_with(post) {
-                                    return t[pre.len()..t.len() - post.len()].trim().parse().ok();
+                                let sq = |x: &str| -> String { x.chars().filter(|c| !c.is_whitespace()).collect() };
+                                let mut t = match f.block.stmts.last() {
+                                    Some(Stmt::Expr(e, None)) => sq(&toks(peel(e))),
+                                    _ => String::new(),
+                                };
+                                // `let k = <call>; k.unwrap()` / `k.expect(..)`
+                                for st in &f.block.stmts {
+                                    if let Stmt::Local(l) = st {
+                                        if let (syn::Pat::Ident(pi), Some(init)) = (&l.pat, &l.init) {
+                                            let name = pi.ident.to_string();
+                                            if t == format!("{name}.unwrap()") || t.starts_with(&format!("{name}.expect(")) {
+                                                t = format!("{}.unwrap()", sq(&toks(&*init.expr)));
+                                            }
+                                        }
+                                    }
+                                }
+                                for pre in ["Self::try_from_usize(", "<SelfasKey>::try_from_usize(", "Key::try_from_usize("] {
+                                    let post = ").unwrap()";
+                                    if t.starts_with(pre) && t.ends_with(post) {
+                                        return t[pre.len()..t.len() - post.len()].trim().parse().ok();
+                                    }
                                 }
                             }
                         }
@@ -321,8 +363,15 @@ pub fn emit(src: &Path, out: &mut String) {
             if m.ident.as_ref().map(|i| i == "impl_serde").unwrap_or(false) {
                 // macro_rules! impl_serde { … }
                 let sq: String = t.chars().filter(|c| !c.is_whitespace()).collect();
-                serde_body_ok = sq.contains("{self.key.serialize(serializer)}")
-                    && sq.contains("{letkey=<$ty>::deserialize(deserializer)?;Ok(Self{key})}");
+                // the raw NonZero is handed to / taken from serde unchanged, in any of these spellings
+                let ser = ["{self.key.serialize(serializer)}", "{letSelf{key}=self;Serialize::serialize(key,serializer)}",
+                           "{Serialize::serialize(&self.key,serializer)}", "{letSelf{key}=self;key.serialize(serializer)}"];
+                let de = ["{letkey=<$ty>::deserialize(deserializer)?;Ok(Self{key})}",
+                          "{letkey=<$tyasDeserialize<'de>>::deserialize(deserializer)?;Ok(Self{key})}",
+                          "{match<$tyasDeserialize<'de>>::deserialize(deserializer){Ok(key)=>Ok(Self{key}),Err(error)=>Err(error),}}",
+                          "{match<$ty>::deserialize(deserializer){Ok(key)=>Ok(Self{key}),Err(error)=>Err(error),}}",
+                          "{<$ty>::deserialize(deserializer).map(|key|Self{key})}"];
+                serde_body_ok = ser.iter().any(|x| sq.contains(x)) && de.iter().any(|x| sq.contains(x));
             } else if toks(&m.mac.path) == "impl_serde" {
                 for part in t.split(',') {
                     let kv: Vec<&str> = part.split("=>").map(|x| x.trim()).collect();
